@@ -71,15 +71,15 @@ def value_matches(expected, observed):
   e = unbox(expected)
   if isinstance(e, Agg):
     if e.kind == 'exact':
-      return norm_value(e.data) == observed
+      return unordered_eq(norm_value(e.data), observed)
     if e.kind == 'oneof':
-      return any(norm_value(x) == observed for x in e.data)
+      return any(unordered_eq(norm_value(x), observed) for x in e.data)
     if not (isinstance(observed, tuple) and observed and observed[0] == 'L'):
       return False
     want = sorted(repr(norm_value(x)) for x in e.data)
     got = sorted(repr(x) for x in observed[1])
     return want == got
-  return norm_value(e) == observed
+  return unordered_eq(norm_value(e), observed)
 
 
 def row_matches(erow, orow):
